@@ -5,11 +5,11 @@ import re
 
 ID = "C16"
 AREA = "hdr"
-COQ_TARGETS = ["theories/Props/C16.vo"]
+COQ_TARGETS = ["theories/Props/C16.vo", "theories/Props/C16c.vo"]
 REQUIRES = ["From Coq Require Import List NArith Bool.", "From Coq.Strings Require Import Byte.",
-            "From MS Require Import Base.Bytes Base.Outcome Mp4.Header Mp4.HeaderSpec Props.C16.",
+            "From MS Require Import Base.Bytes Base.Outcome Mp4.Header Mp4.HeaderSpec Mp4.Box Mp4.BoxProofsLazy Props.C16 Props.C16c.",
             "Import ListNotations.", "Open Scope N_scope."]
-COQCHK = ["MS.Props.C16"]
+COQCHK = ["MS.Props.C16", "MS.Props.C16c"]
 
 THEOREMS = [
     ("C16_header_roundtrip", """
@@ -32,13 +32,34 @@ THEOREMS = [
   (with_data_size t n = EParse InvalidInput <-> U64MAX < n + long_len t) /\\
   ((exists h, with_data_size t n = Ok h) \\/ with_data_size t n = EParse InvalidInput) /\\
   (n <= U32MAX -> with_data_size t n = Ok (with_u32_data_size t n))"""),
+    # ---- part (c): the lazily parsed box tree (Mp4/Box.v); proofs in Mp4/BoxProofsLazy.v
+    ("C16_lazy_roundtrip", """
+  forall (fuel : nat) (buf : bytes) (ns ns' : list node),
+  parse_boxes fuel buf = Ok ns -> Forall2 forces ns ns' ->
+  put_nodes ns = buf /\\ put_nodes ns' = buf"""),
+    ("C16_encoded_len_agrees", """
+  forall (fuel : nat) (buf : bytes) (ns ns' : list node),
+  parse_boxes fuel buf = Ok ns -> Forall2 forces ns ns' ->
+  N.of_nat (length (put_nodes ns')) = nodes_encoded_len ns' /\\
+  nodes_encoded_len ns' = N.of_nat (length buf) /\\
+  (forall n, In n ns' -> N.of_nat (length (put_node n)) = node_encoded_len n)"""),
+    ("C16_accessors_are_forcings", """
+  forall (kids kids' : list node) (cs : list N),
+  each_trak kids tab_count = Ok (kids', cs) -> Forall2 forces kids kids'"""),
+    ("C16_moov_roundtrip", """
+  forall (p : bytes) (kids : list node), moov_check p = Ok kids -> put_nodes kids = p"""),
+    ("C16_set_keeps_length", """
+  forall (f g : N -> res N) (kids kids' : list node) (l : list unit),
+  each_trak kids (shift_table f g) = Ok (kids', l) -> length (put_nodes kids') = length (put_nodes kids)"""),
 ]
 
 TRUSTED = [
     "Coq 8.16.1 kernel (coqc; coqchk in the thorough tier); vm_compute for the Examples only; no native_compute",
-    "axioms: none (Print Assumptions = Closed under the global context for both theorems)",
+    "axioms: none (Print Assumptions = Closed under the global context for all theorems)",
     "the hand-written model coq/theories/Mp4/Header.v of mp4san/src/parse/header.rs (hdr_read, hdr_put, encoded_len, box_data_size, "
     "with_u32_data_size, with_data_size), tied to the current source by the correspondence batch of every run",
+    "part (c): the hand-written tree model coq/theories/Mp4/Box.v of mp4san/src/parse/{mp4box,array,stco,co64,stbl,minf,mdia,trak,moov}.rs, tied to "
+    "the source by the mp4 area's correspondence batch (whole sanitizer runs), not by this module's batch",
     "extraction (ExtrOcamlBasic only), OCaml 4.13.1, ocaml/prelude.ml + ocaml/hdr.ml",
     "Rust harness harness/src/hdr.rs calling mp4san::parse::BoxHeader::{parse, put_buf, encoded_len, box_size, box_data_size, with_data_size, "
     "with_u32_data_size}; the Size/Ext variant is read off the derived Debug text; rustc/cargo",
@@ -58,7 +79,13 @@ RULE = ("hdrparse: every truncation length of headers built from size fields {0,
         "or failed by truncation after the 8th byte; constructor payload within 48 of a form boundary or an error.")
 EXHAUSTIVE = {"quick": False, "thorough": False}
 XCHECK_N = 60
-NOTES = ["part (c) of C16 (lazy box tree, finding D9) is a separate area and is not covered by these theorems"]
+NOTES = ["part (c) (lazy box tree): theorems C16_lazy_roundtrip / C16_encoded_len_agrees / C16_accessors_are_forcings / C16_moov_roundtrip / "
+         "C16_set_keeps_length are about the tree model Mp4/Box.v, whose correspondence with Mp4Box::parse / traks / co_mut / put_buf is exercised "
+         "through the whole sanitizer by the mp4 area (./check C01, C04, C05: the returned moov payload is put_buf of the forced tree); there is no "
+         "separate forcing-order batch in this module",
+         "finding D9 (a FAILED lazy parse has already consumed part of the child's BytesMut, a later put_buf writes a shortened box) is outside the "
+         "model: force_cont / force_table return an error and no new state, and every caller in the sanitizer propagates the error; nothing is "
+         "claimed about the Rust value after an accessor returned Err"]
 
 U32 = 2**32 - 1
 U64 = 2**64 - 1
@@ -427,9 +454,14 @@ LEVEL_TEXT = ("Parts (a),(b): theorems C16_header_roundtrip (both directions, an
               "C16_header_constructors (all box types, all u64 payload sizes) in Coq about the executable model of mp4san/src/parse/header.rs; "
               "model tied to the code by a differential check (every truncation of a size-field x type x largesize lattice, an exhaustive low-size "
               "family, seeded random strings; constructor grid around u32::MAX and u64::MAX for both type forms). A round-trip law over all header "
-              "values and all byte strings is what a proof decides; the unit tests exercise three headers.")
+              "values and all byte strings is what a proof decides; the unit tests exercise three headers. Part (c): for every byte string parsed "
+              "by Boxes::parse (model parse_boxes) and EVERY sequence of successful forcings (inductive relation `forces`: lazy parse of a "
+              "container's children, of an stco/co64 table, at any depth, in any order) put gives back the parsed bytes and its length is "
+              "encoded_len (C16_lazy_roundtrip, C16_encoded_len_agrees); the accessor chain the sanitizer runs is such a sequence "
+              "(C16_accessors_are_forcings). Part (c) is a theorem about the tree model; that model is compared with the implementation only "
+              "through the whole sanitizer (mp4 area), not accessor by accessor.")
 LEVEL_NOTE = ("Trusted: Coq kernel; the hand-written header model (compared with the implementation on every run); extraction and OCaml driver; "
               "the Rust harness; the Python reading of the ISO box-header layout used as oracle. No axioms. FourCC `uuid` as a box type "
               "(BoxType::UUID) is outside the quantifier: it serialises to bytes that read back as a uuid-typed box.")
 TECHNIQUE = "Coq proof over a hand-written model + differential check of extracted model vs Rust + independent Python oracle"
-DESIGN_REF = "DESIGN.md section 7 (C16 a,b)"
+DESIGN_REF = "DESIGN.md section 7 (C16 a,b,c)"
